@@ -133,6 +133,11 @@ def run(tier):
         p = os.path.join(gdir, 'm%d.c' % i)
         common.write(p, mutate.mutate(rng.choice(pool), rng, rng.choice(pool)))
         inputs.append(('mut:%d' % i, p))
+    from . import c19
+    for name, text in c19.trap_inputs():
+        p = os.path.join(gdir, name + '.c')
+        common.write(p, text + '\n')
+        inputs.append(('trap:' + name, p))
     for i, ent in enumerate(neg_catalogue.CAT):
         p = os.path.join(gdir, 'n%d.c' % i)
         kind, cls, text = ent[:3]
